@@ -9,11 +9,12 @@ TINY = {"n_chr": 2, "genes_per_chr": 2, "reads_per_iso": 2, "paralogs": 0, "nove
 PART_FILES = ("read_assignments.tsv", "corrected_reads.bed", "gene_counts.tsv", "transcript_counts.tsv")
 
 
-def gen_history(rng, max_ops=6):
-    """a short sequence of cache operations; every 'run' is a single actor"""
+def gen_history(rng, max_ops=6, two=False):
+    """a short sequence of cache operations; every 'run' is a single actor.  two=True: two different annotations with
+    the same file name in different folders (workloads 0 and 1) compete for the same output folders"""
     steps = []
     n = rng.randrange(2, max_ops + 1)
-    outs = ["A", "B", "C"]
+    outs = ["A", "B", "C"] if not two else ["A", "B"]
     have_run = False
     for i in range(n):
         r = rng.random()
@@ -28,7 +29,8 @@ def gen_history(rng, max_ops=6):
                 o["complete_genedb"] = True
             if rng.random() < 0.15:
                 o["clean_start"] = True
-            steps.append({"run": [{"wl": 0, "opts": o, "out": rng.choice(outs)}], "sched": {"policy": "serial", "seed": 0}})
+            steps.append({"run": [{"wl": rng.choice([0, 1]) if two else 0, "opts": o, "out": rng.choice(outs)}],
+                          "sched": {"policy": "serial", "seed": 0}})
             have_run = True
         elif r < 0.75:
             steps.append({"op": "edit_gtf", "wl": 0})
@@ -61,8 +63,12 @@ def run(chk, orch):
         hist = {}
         for k in range(nh):
             spec = dict(TINY, seed=chk.rng.randrange(1 << 20))
-            steps = gen_history(chk.rng)
+            two = k % 3 == 1
+            steps = gen_history(chk.rng, two=two)
             a = {"workloads": [{"spec": spec}], "steps": steps}
+            if two:
+                spec2 = dict(TINY, seed=chk.rng.randrange(1 << 20), genes_per_chr=3)
+                a["workloads"] = [{"spec": spec, "same_basename_dir": True}, {"spec": spec2, "same_basename_dir": True}]
             orch.submit(0, "scenarios:cache_session", a, tag=("h", k), timeout=180)
             hist[k] = a
         # ---------------- R: representations
@@ -92,8 +98,9 @@ def run(chk, orch):
             spec["groups"] = 0
             opts = {"data_type": chk.rng.choice(["nanopore", "pacbio_ccs"]), "annotated": True}
             hs = 0 if quick else chk.rng.choice([0, 1, 2, 3])
+            split = ["random", "chunks", "tiny"][k % 3]
             for nb in (1, 2, 3, 4):
-                s2 = dict(spec, n_bams=nb)
+                s2 = dict(spec, n_bams=nb, bam_split=split)
                 cell = common.random_cell(chk.rng) if nb > 1 else dict(common.GOLDEN_CELL)
                 cell["hashseed"] = hs
                 o = dict(opts, bam_order=chk.rng.randrange(5) if nb > 1 else None)
@@ -113,7 +120,7 @@ def run(chk, orch):
             chk.runs += sum(1 for s in a["steps"] if "run" in s)
             chk.events_simulated += r.get("events", 0)
             chk.evaluations += 1
-            sig = json.dumps([("run", s["run"][0]["opts"], s["run"][0]["out"]) if "run" in s else s["op"] for s in a["steps"]], sort_keys=True)
+            sig = json.dumps([("run", s["run"][0].get("wl", 0), s["run"][0]["opts"], s["run"][0]["out"]) if "run" in s else s["op"] for s in a["steps"]], sort_keys=True)
             chk.distinct.add("H" + sig)
             chk.sample({"kind": "cache history", "steps": json.loads(sig)}, cap=3)
             for s in a["steps"]:
